@@ -463,7 +463,7 @@ def shard(first, depth=3):
         I.restore_base()
     t.outcomes |= res.states
     t.extra["transitions"] += res.transitions
-    t.extra["max_depth"] = max(t.extra["max_depth"], res.max_depth)
+    t.stat("bfs_depth_reached", res.max_depth)
     t.bfs_states = res.states
     return t
 
